@@ -1217,6 +1217,13 @@ def _desugar_body(stmts):
                 new_st._annotation = st.annotation
                 st = new_st
                 changed = True
+        if isinstance(st, ast.Match):
+            ifs = _match_to_ifs(st)
+            if ifs is not None:
+                new, _ = _desugar_body(ifs)
+                out += new
+                changed = True
+                continue
         nx = _next_search(st)
         if nx is not None:
             out += nx
@@ -1255,6 +1262,91 @@ def _desugar_body(stmts):
         else:
             out.append(st)
     return out, changed
+
+
+def _pattern_test(pat, subj, binds):
+    """Condition under which a simple pattern matches the subject expression (an ast expr that is cheap and pure: a name, an
+    attribute chain or a literal tuple of such), or None when the pattern kind is not supported.  Captures are appended to
+    `binds` as (name, expr)."""
+    def C(x):
+        return _clone(x)
+
+    if isinstance(pat, ast.MatchValue):
+        return ast.Compare(left=C(subj), ops=[ast.Eq()], comparators=[C(pat.value)])
+    if isinstance(pat, ast.MatchSingleton):
+        return ast.Compare(left=C(subj), ops=[ast.Is()], comparators=[ast.Constant(value=pat.value)])
+    if isinstance(pat, ast.MatchAs):
+        if pat.pattern is None:
+            if pat.name is not None:
+                binds.append((pat.name, C(subj)))
+            return ast.Constant(value=True)
+        t = _pattern_test(pat.pattern, subj, binds)
+        if t is not None and pat.name is not None:
+            binds.append((pat.name, C(subj)))
+        return t
+    if isinstance(pat, ast.MatchOr):
+        parts = []
+        for p_ in pat.patterns:
+            b_ = []
+            t = _pattern_test(p_, subj, b_)
+            if t is None or b_:
+                return None
+            parts.append(t)
+        return ast.BoolOp(op=ast.Or(), values=parts)
+    if isinstance(pat, ast.MatchClass) and not pat.patterns and not pat.kwd_patterns:
+        return ast.Call(func=ast.Name(id="isinstance", ctx=ast.Load()), args=[C(subj), C(pat.cls)], keywords=[])
+    if isinstance(pat, ast.MatchSequence) and isinstance(subj, ast.Tuple) and len(pat.patterns) == len(subj.elts) and not any(isinstance(p_, ast.MatchStar) for p_ in pat.patterns):
+        parts = []
+        for p_, e_ in zip(pat.patterns, subj.elts):
+            t = _pattern_test(p_, e_, binds)
+            if t is None:
+                return None
+            if not (isinstance(t, ast.Constant) and t.value is True):
+                parts.append(t)
+        if not parts:
+            return ast.Constant(value=True)
+        return parts[0] if len(parts) == 1 else ast.BoolOp(op=ast.And(), values=parts)
+    return None
+
+
+def _match_to_ifs(st):
+    """`match subject: case P1: B1 ...` with simple patterns (literals, None/True/False, classes without sub-patterns,
+    captures, wildcards, alternatives, tuples of those against a literal tuple subject, guards) -> the if/elif chain it
+    abbreviates.  None for anything else (the flow graph then reports the statement as not modelled)."""
+    def pure(e):
+        if isinstance(e, (ast.Name, ast.Constant)):
+            return True
+        if isinstance(e, ast.Attribute):
+            return pure(e.value)
+        return isinstance(e, ast.Tuple) and all(pure(x) for x in e.elts)
+
+    if not pure(st.subject):
+        return None
+    arms = []
+    for case in st.cases:
+        binds = []
+        t = _pattern_test(case.pattern, st.subject, binds)
+        if t is None:
+            return None
+        if case.guard is not None:
+            if binds:
+                return None  # a guard that may read a capture: evaluation order matters
+            t = case.guard if (isinstance(t, ast.Constant) and t.value is True) else ast.BoolOp(op=ast.And(), values=[t, case.guard])
+        body = [ast.copy_location(ast.Assign(targets=[ast.Name(id=n_, ctx=ast.Store())], value=v_, lineno=case.body[0].lineno), case.body[0]) for n_, v_ in binds] + list(case.body)
+        arms.append((t, body))
+    node = None
+    for t, body in reversed(arms):
+        if isinstance(t, ast.Constant) and t.value is True:
+            node = body  # an irrefutable case: what follows it is unreachable
+            continue
+        new_if = ast.copy_location(ast.If(test=t, body=body, orelse=(node if isinstance(node, list) else ([node] if node is not None else []))), st)
+        node = new_if
+    if node is None:
+        return [ast.copy_location(ast.Pass(), st)]
+    out = node if isinstance(node, list) else [node]
+    for x in out:
+        ast.fix_missing_locations(x)
+    return out
 
 
 _NEXT_COUNTER = [0]
